@@ -346,6 +346,14 @@ class C02(PropBase):
         for _ in range(1 if tier == "quick" else 6):
             n = rng.choice([2051, 2049, 1025, 4099])
             out.append(self.mk(rng, {}, common.gen_large_journal(rng, n), "large:%d" % n, selector=rng.random() < 0.3))
+        # the same exact sums under a report scale that rounds (C02's own runs print at scale 0..28, where nothing is
+        # rounded, so sums that are rounded *before* the tree and the deltas are built look right there): C17's journals whose
+        # parts and whose total round differently, borrowed here (tree sums and deltas must be the rounded exact sums)
+        if not focus:
+            import c17
+            for _ in range(60 if tier == "quick" else 1500):
+                c = c17.PROP.mk_parts_total(rng)
+                out.append(dict(c, delegate="c17", kind="scaled:" + str(c.get("kind", ""))))
         return out
 
     def mk(self, rng, cfg, txns, kind, selector=False):
